@@ -1,19 +1,24 @@
 #!/usr/bin/env python3
-"""setup_cmd: offline warm-up. Builds the Kani harness crate's dependencies (the /repo crates) once so that
-later checks only rebuild what changed, and checks the tool versions the checks rely on."""
+"""setup_cmd: offline warm-up. Builds the Kani harness crate's dependencies (the /repo crates) once so that later
+checks only rebuild what changed, builds mirsym's native evaluation tool, and checks the tool versions."""
 import os, subprocess, sys, shutil
 ROOT = os.path.dirname(os.path.abspath(__file__))
 env = dict(os.environ, CARGO_NET_OFFLINE="true")
 env.pop("RUSTUP_TOOLCHAIN", None)
 ok = True
-for tool in (["cargo", "kani", "--version"], ["cbmc", "--version"], ["z3", "--version"], ["cvc5", "--version"]):
+for tool in (["cargo", "kani", "--version"], ["cbmc", "--version"], ["z3", "--version"], ["cvc5", "--version"], ["python3-vt", "-c", "import z3; print('z3 python', z3.get_version_string())"]):
     try:
         out = subprocess.run(tool, capture_output=True, text=True, env=env).stdout.strip().splitlines()
         print(" ".join(tool[:2]), "->", out[0] if out else "?")
     except FileNotFoundError:
         print("missing tool:", tool[0]); ok = False
-shutil.copyfile("/repo/Cargo.lock", os.path.join(ROOT, "kani", "Cargo.lock")) if not os.path.exists(os.path.join(ROOT, "kani", "Cargo.lock")) else None
-p = subprocess.run(["cargo", "kani", "-Z", "stubbing", "--only-codegen", "--harness", "c26::c26__u64_roundtrip_all", "--exact"],
+for d in ("kani", os.path.join("mirsym", "native")):
+    lock = os.path.join(ROOT, d, "Cargo.lock")
+    if not os.path.exists(lock):
+        shutil.copyfile("/repo/Cargo.lock", lock)
+p = subprocess.run(["cargo", "kani", "-Z", "stubbing", "--only-codegen", "--harness", "c26::c26__u64_roundtrip", "--exact"],
                    cwd=os.path.join(ROOT, "kani"), env=env)
+ok = ok and p.returncode == 0
+p = subprocess.run(["cargo", "build", "--release", "--offline", "-q"], cwd=os.path.join(ROOT, "mirsym", "native"), env=env)
 ok = ok and p.returncode == 0
 sys.exit(0 if ok else 1)
